@@ -543,10 +543,32 @@ class ObsProp(core.Prop):
                     yield self._case(sess, wdesc, kind, os_, 0, [0] * 40, "on-ray")
                 self._flush_problems(sess, wdesc)
 
+        # C''. numerically fragile ties (gridw.fragile_ties): the cell on the ray is one at which another floating-point
+        #      evaluation order of the ray formula misses the exact value; ranges 9..40, a sample per run
+        ties = gridw.fragile_ties(40)
+        for dr, dc, r_, c_ in rng.sample(ties, 30 if quick else 300):
+            transpose = rng.random() < 0.5
+            R_ = max(r_, c_)
+            b_pos, t_pos = ([dc, dr], [c_, r_]) if transpose else ([dr, dc], [r_, c_])
+            ags = [dict(gridw.AG_DEFAULT, enc=1, observing=True, view_range="FULL"),
+                   dict(gridw.AG_DEFAULT, enc=2, blocking=True), dict(gridw.AG_DEFAULT, enc=3)]
+            st = [{"pos": [0, 0], "health": [1, 1], "ammo": 0, "orient": 1},
+                  {"pos": b_pos, "health": [1, 1], "ammo": 0, "orient": 1},
+                  {"pos": t_pos, "health": [1, 1], "ammo": 0, "orient": 1}]
+            wdesc = {"rows": R_ + 1, "cols": R_ + 1, "overlap": [], "agents": ags, "state": st}
+            try:
+                sess = ObsSession(copy.deepcopy(wdesc))
+            except ValueError:
+                continue
+            for kind, os_ in GRID_KINDS[:3]:
+                yield self._case(sess, wdesc, kind, os_, 0, [0] * 40, "fragile-tie")
+            self._flush_problems(sess, wdesc)
+
         # D. random worlds, any agent (supported or not), any observer
         for _ in range(500 if quick else 12000):
             wdesc = gridw.gen_world(rng, max_side=side, max_agents=8, kinds=observer_kinds, dead_prob=0.15,
                                     big=rng.random() < 0.2)
+            gridw.maybe_late(rng, wdesc, 0.1)
             order = list(range(len(wdesc["agents"])))
             rng.shuffle(order)
             wdesc["place_order"] = order
